@@ -4,4 +4,5 @@ CONSTANTS
   Rich = FALSE
 INVARIANT InvValid
 PROPERTY RefusalIsNoOp
+PROPERTY HeldIsIndependent
 CHECK_DEADLOCK FALSE
